@@ -12,7 +12,7 @@ Every function is *injective in its identity*: embedding, density (per element /
 quadrupole functions all have distinct parameters derived from the canonical indices of the species involved, so
 any mis-routing, transposition or wrong zero-fill changes numbers.
 """
-import io, itertools
+import io, itertools, collections.abc
 
 from . import routes as R
 from .refmodel import expr as X
@@ -22,7 +22,7 @@ UNIVERSE = ['Al', 'Cu', 'Fe', 'Ni']          # enumerated exhaustively
 BIG = ['Al', 'Cu', 'Fe', 'Ni', 'Ag', 'Au']   # structured 5- and 6-element models
 CUSTOM = ['Xx', 'A', 'B', 'Zq']
 # labels that are anagrams of each other when two are joined (Fe2+Cr3 / Fe3+Cr2), labels of 8 characters (the widest the fixed-width formats hold)
-CUSTOM2 = ['Fe2', 'Fe3', 'Cr2', 'Cr3', 'Ce_core4', 'O_shell2']
+CUSTOM2 = ['Fe2', 'Fe3', 'Cr2', 'Cr3', 'Ce_core4', 'O_shell2', 'Fe10', 'Si9', 'Si10']      # (... and labels whose numbers differ in digit count)
 FOREIGN = ['Mg', 'O']                       # species of pair potentials that have no EAM functions (hybrid pair/EAM models)
 BUILTIN = {'Al': (13, 26.981538), 'Cu': (29, 63.546), 'Fe': (26, 55.845), 'Ni': (28, 58.6934), 'Ag': (47, 107.8682), 'Au': (79, 196.96655)}
 # (values with more digits than %f prints and values in scientific notation: the element line must not lose them)
@@ -37,7 +37,9 @@ CUSTOM_DATA = {'Xx': {'atomic_number': 119, 'atomic_mass': 300.5}, 'A': {'atomic
                'Cr2': {'atomic_number': 24, 'atomic_mass': 51.9961, 'lattice_type': 'sc'},
                'Cr3': {'atomic_number': 124, 'atomic_mass': 351.99615, 'lattice_constant': 12.345678, 'lattice_type': 'hexagonal'},
                'Ce_core4': {'atomic_number': 58, 'atomic_mass': 140.116, 'lattice_constant': 5.41, 'lattice_type': 'diamond'},
-               'O_shell2': {'atomic_number': 8, 'atomic_mass': 15.999}}
+               'O_shell2': {'atomic_number': 8, 'atomic_mass': 15.999},
+               'Fe10': {'atomic_number': 26, 'atomic_mass': 55.845, 'lattice_constant': 2.87, 'lattice_type': 'bcc'},
+               'Si9': {'atomic_number': 14, 'atomic_mass': 28.0855}, 'Si10': {'atomic_number': 14, 'atomic_mass': 28.1, 'lattice_type': 'diamond'}}
 
 
 def idx(el):
@@ -175,6 +177,24 @@ def api_option_models(fs):
             out.append(dict(base, title=t))
         out.append(dict(base, assign_after=True))
         out.append(dict(base, numpy_returns=True))
+        if fs:
+            allp = ['%s->%s' % (a, b) for a in els for b in els]
+            out.append(dict(base, dens=allp, lazy_mapping=True))
+            out.append(dict(base, dens=allp[1:], lazy_mapping=True))
+    return out
+
+
+def species_layout_models(fs):
+    """[Species] written property by property or interleaved instead of species by species"""
+    out = []
+    for sp, pool in (('custom', CUSTOM), ('override', UNIVERSE), ('custom', CUSTOM2[:4])):
+        for n in (2, 3):
+            for els in list(itertools.permutations(pool[:4], n))[::3]:
+                for layout in ('property-major', 'interleaved'):
+                    up = unordered_pairs(els)
+                    dens = ['%s->%s' % (a, b) for a in els for b in els][::2] if fs else list(els)
+                    out.append(dict(fs=fs, embed=list(els), dens=dens, pairs=[list(p) for p in orient(up[::2], 1)], species=sp, species_layout=layout,
+                                    nr=4, cutoff=2.5, nrho=3, cutoff_rho=50.0))
     return out
 
 
@@ -199,6 +219,13 @@ def label_models(fs, tier):
             if n == 4 and tier == 'quick' and k % 3:
                 continue
             out.append(mk(list(els), 'custom'))
+    for n in (2, 3):
+        for trio in (['Fe2', 'Fe10', 'O_shell2'], ['Si9', 'Si10', 'Fe2']):
+            for els in itertools.permutations(trio, n):
+                k += 1
+                m_ = mk(list(els), 'custom')
+                m_['pairs'] = [list(p) for p in orient(unordered_pairs(els), k % 3)]      # every pair declared
+                out.append(m_)
     for n in (1, 2, 3):
         for els in itertools.permutations(['Ce_core4', 'O_shell2', 'Cr3'], n):
             k += 1
@@ -218,10 +245,17 @@ def eam_ini(m, target, sep=' : '):
     sp = m.get('species', 'builtin')
     if sp != 'builtin':
         out.append('[Species]')
+        lines = []
         for el in model_elements(m):
             data = CUSTOM_DATA[el] if sp == 'custom' else OVERRIDE.get(el, {})
             for k, v in data.items():
-                out.append('%s.%s%s%s' % (el, k, sep, v))
+                lines.append((el, k, '%s.%s%s%s' % (el, k, sep, v)))
+        layout = m.get('species_layout', 'species-major')
+        if layout == 'property-major':           # all atomic numbers, then all masses, ...
+            lines.sort(key=lambda t: (t[1], model_elements(m).index(t[0])))
+        elif layout == 'interleaved':
+            lines = lines[::2] + lines[1::2][::-1]
+        out.extend(l for _e, _k, l in lines)
         out.append('')
     out.append('[EAM-Embed]')
     for el in m['embed']:
@@ -263,6 +297,25 @@ def big_grid_models(fs):
     return out
 
 
+class LazyDensities(collections.abc.Mapping):
+    """a density 'dictionary' that derives the function of a pair when it is asked for (a mixing rule): every look-up returns a NEW callable"""
+    def __init__(self, el, others, m, api_defn):
+        self.el, self.others, self.m, self.api_defn = el, list(others), m, api_defn
+
+    def __getitem__(self, b):
+        if b not in self.others:
+            raise KeyError(b)
+        from atsim.potentials import potentialforms as pf
+        f = self.api_defn(dens_fs_defn(self.el, b)) if ('%s->%s' % (self.el, b)) in self.m['dens'] else pf.zero()
+        return lambda r: f(r)              # a fresh temporary each time
+
+    def __iter__(self):
+        return iter(self.others)
+
+    def __len__(self):
+        return len(self.others)
+
+
 def api_objects(m, order=None):
     """(pair potentials, EAMPotential list in `order` (default: model_elements order), dipoles, quadrupoles).
     In the Python API the user states everything explicitly: undeclared functions are explicit zero() callables."""
@@ -281,7 +334,9 @@ def api_objects(m, order=None):
     for el in els:
         Z, mass, a, lat = ref_meta(m, el, 'api')
         emb = api_defn(embed_defn(el)) if el in m['embed'] else pf.zero()
-        if m['fs']:
+        if m['fs'] and m.get('lazy_mapping'):
+            dens = LazyDensities(el, [b for b in els], m, api_defn)
+        elif m['fs']:
             dens = {}
             for b in els:
                 dens[b] = api_defn(dens_fs_defn(el, b)) if ('%s->%s' % (el, b)) in m['dens'] else pf.zero()
